@@ -21,6 +21,6 @@ elif [ "$cmd" = run ]; then
   name=$1; shift
   cd /repo && git apply /verif/seeded/$name/patch.diff || { echo "patch does not apply"; exit 1; }
   cd /verif
-  for p in "$@"; do ./check $p --tier quick 2>&1 | grep -E "^VIOLATION|^UNDECIDED|^KNOWN|^C[0-9]+:|CHECKER" | head -6; done
+  for p in "$@"; do ./check $p --tier quick 2>&1 | grep -E "^VIOLATION|^UNDECIDED|^KNOWN|^C[0-9]+:|CHECKER" | grep -v "^KNOWN" | head -8; done
   git -C /repo checkout -- .
 fi
